@@ -473,6 +473,10 @@ func (c *FnCtx) applyCallee(st *State, site ast.Node, key string, sig *types.Sig
 	if !isRepo && !ct.Impure {
 		// library functions are functions of their arguments unless declared impure
 		rs = c.pureApp(st, key, sig, recv, args)
+	} else if isRepo && fiCallee == nil && len(ct.Assigns) == 0 && ct.AssignsOK {
+		// method of a repository interface with a read-only contract: the same observer function as in specs
+		c.assumptionsUsed["read-only methods of repository interfaces are observer functions of the receiver: "+shortFuncKey(key)] = true
+		rs = c.pureApp(st, key, sig, recv, args)
 	} else {
 		for i := 0; i < nres; i++ {
 			rs = append(rs, c.freshOfType(st, "res_"+lastDot(key), sig.Results().At(i).Type()))
